@@ -149,18 +149,18 @@ theorem irel_evs : ∀ {X : List (Item σ)} {Y : List (Item τ)}, IRel X Y → e
   | reg _ _ ih => simp [ih]
 
 /-- related results of `_strip` -/
-def SRel (x : Option (List (Item σ) × Event × List (Item σ))) (y : Option (List (Item τ) × Event × List (Item τ))) : Prop :=
+def StripRel (x : Option (List (Item σ) × Event × List (Item σ))) (y : Option (List (Item τ) × Event × List (Item τ))) : Prop :=
   (x = none ∧ y = none) ∨
   ∃ a e b a' b', x = some (a, e, b) ∧ y = some (a', e, b') ∧ IRel a a' ∧ IRel b b'
 
-theorem srel_map {x : Option (List (Item σ) × Event × List (Item σ))} {y : Option (List (Item τ) × Event × List (Item τ))}
-    (h : SRel x y) (i : Item σ) (j : Item τ) (hij : ∀ {a a'}, IRel a a' → IRel (i :: a) (j :: a')) :
-    SRel (x.map fun (a, e, b) => (i :: a, e, b)) (y.map fun (a, e, b) => (j :: a, e, b)) := by
+theorem stripRel_map {x : Option (List (Item σ) × Event × List (Item σ))} {y : Option (List (Item τ) × Event × List (Item τ))}
+    (h : StripRel x y) (i : Item σ) (j : Item τ) (hij : ∀ {a a'}, IRel a a' → IRel (i :: a) (j :: a')) :
+    StripRel (x.map fun (a, e, b) => (i :: a, e, b)) (y.map fun (a, e, b) => (j :: a, e, b)) := by
   rcases h with ⟨rfl, rfl⟩ | ⟨a, e, b, a', b', rfl, rfl, h1, h2⟩
   · exact Or.inl ⟨rfl, rfl⟩
   · exact Or.inr ⟨_, e, b, _, b', rfl, rfl, hij h1, h2⟩
 
-theorem strip_rel : ∀ {X : List (Item σ)} {Y : List (Item τ)}, IRel X Y → ∀ d, SRel (strip d X) (strip d Y) := by
+theorem strip_rel : ∀ {X : List (Item σ)} {Y : List (Item τ)}, IRel X Y → ∀ d, StripRel (strip d X) (strip d Y) := by
   intro X Y h
   induction h with
   | nil => intro d; exact Or.inl ⟨rfl, rfl⟩
@@ -169,7 +169,7 @@ theorem strip_rel : ∀ {X : List (Item σ)} {Y : List (Item τ)}, IRel X Y → 
     unfold strip
     by_cases hS : isStart e = true
     · simp only [hS, ↓reduceIte]
-      exact srel_map (ih (d + 1)) _ _ (fun h => .ev e h)
+      exact stripRel_map (ih (d + 1)) _ _ (fun h => .ev e h)
     · simp only [hS, ↓reduceIte]
       by_cases hE : isEnd e = true
       · simp only [hE, ↓reduceIte]
@@ -181,13 +181,13 @@ theorem strip_rel : ∀ {X : List (Item σ)} {Y : List (Item τ)}, IRel X Y → 
           · simp only [hd, ↓reduceIte]
             exact Or.inr ⟨[], e, X, [], Y, rfl, rfl, .nil, hXY⟩
           · simp only [hd, ↓reduceIte]
-            exact srel_map (ih d') _ _ (fun h => .ev e h)
+            exact stripRel_map (ih d') _ _ (fun h => .ev e h)
       · simp only [hE, ↓reduceIte]
-        exact srel_map (ih d) _ _ (fun h => .ev e h)
+        exact stripRel_map (ih d) _ _ (fun h => .ev e h)
   | @reg a b X Y hab hXY ih =>
     intro d
     unfold strip
-    exact srel_map (ih d) _ _ (fun h => .reg hab h)
+    exact stripRel_map (ih d) _ _ (fun h => .reg hab h)
 
 /-- related results of the filter: both fail, or both succeed with related lists and the same output -/
 def ResRel (x : Option (List (MT σ) × List Event)) (y : Option (List (MT τ) × List Event)) : Prop :=
